@@ -432,7 +432,12 @@ class SyncRpcClient(RpcClient):
         b_pdu = self._prepare_pdu(pdu, encrypt_offsets)
         self._sock.sendall(b_pdu)
 
-        header = self._sock.recv(16)
+        header = bytearray()
+        while len(header) < 16:
+            data = self._sock.recv(16 - len(header))
+            if not data:
+                raise ConnectionError("RPC connection closed before the PDU header was received")
+            header += data
         resp_header = PDUHeader.unpack(header)
 
         resp = bytearray(resp_header.frag_len)
@@ -442,6 +447,8 @@ class SyncRpcClient(RpcClient):
 
         while view:
             read = self._sock.recv_into(view)
+            if not read:
+                raise ConnectionError("RPC connection closed before the full PDU was received")
             view = view[read:]
 
         return self._process_response(resp, resp_header, resp_type, encrypt_offsets)
